@@ -8,9 +8,20 @@ Regenerates, from the *current* source under env.REPO on every run:
   coq/Gen/C06HandleMaps.v  for every protocol layer class: the keys of the handleMap literal in
                            its __init__ and whether the recv / send slot is a handler or None
 
-Anything it does not recognise raises TranslateError (tie broken).
+Robustness (design_notes/C06.md, "Translator robustness"): the stack-builder helpers are total
+functions of the four module flags and a handleMap is a finite table, so next to the syntactic
+extraction both are EVALUATED in a fresh interpreter (harness/translators/stack_eval.py; every
+helper value is the first call of a process, later calls are compared with it; every protocol
+layer class is instantiated and the keys / filled slots of its handleMap are read).
+  * source shape recognised: the syntactic result must agree with the evaluated table on every
+    selection / every layer; the Gen files are the syntactic result, byte for byte as before;
+  * source shape not recognised: the Gen files are generated from the evaluated table (the same
+    text when the table factorises as basic ++ one block per flag, a 16-row match otherwise);
+  * neither works (import error, a helper raising, a non-class entry, an unknown layer class):
+    TranslateError (tie broken).
 """
 import ast, os, glob
+from . import stack_eval
 
 CLASS2LID = {
     "YowAuthenticationProtocolLayer": "LAuth", "YowMessagesProtocolLayer": "LMessages",
@@ -50,7 +61,8 @@ def _coq_str(s):
     return '"' + s.replace('"', '""') + '"'
 
 
-def translate_stack(repo):
+def parse_stack(repo):
+    """syntactic: (basic lids, [(flag, lids)], shape items)"""
     path = os.path.join(repo, "yowsup", "stacks", "yowstack.py")
     tree = ast.parse(open(path).read(), path)
     basic = None
@@ -127,6 +139,10 @@ def translate_stack(repo):
             _fail("getDefaultLayers: unrecognised statement at line %d" % s.lineno)
     if not (saw_core and saw_proto):
         _fail("getDefaultLayers: core/protocol layer calls not found")
+    return basic, appends, shape
+
+
+def emit_layers(basic, appends, shape):
     out = ["(* GENERATED by harness/translators/c06tables.py from yowsup/stacks/yowstack.py - do not edit *)",
            "From YV Require Import C06.C06Base.", "",
            "Definition basic_layers : list lid := [%s]." % "; ".join(basic), "",
@@ -135,7 +151,105 @@ def translate_stack(repo):
         out.append("  ++ (if fl_%s c then [%s] else [])" % (flag, "; ".join(ls)))
     out[-1] += "."
     out += ["", "Definition default_upper : list sitem := [%s]." % "; ".join(shape), ""]
-    return "\n".join(out), basic + [l for _, ls in appends for l in ls]
+    return "\n".join(out)
+
+
+def emit_layers_rows(rows, shape):
+    """the evaluated table does not factorise as basic ++ one block per flag: one row per selection"""
+    out = ["(* GENERATED by harness/translators/c06tables.py from yowsup/stacks/yowstack.py - do not edit *)",
+           "(* evaluated table (harness/translators/stack_eval.py): the value of getProtocolLayers per selection *)",
+           "From YV Require Import C06.C06Base.", "",
+           "Definition basic_layers : list lid := [%s]." % "; ".join(rows["0000"]), "",
+           "Definition protocol_layers (c : flags) : list lid :=",
+           "  match fl_groups c, fl_media c, fl_privacy c, fl_profiles c with"]
+    for key in sorted(rows, reverse=True):
+        out.append("  | %s => [%s]" % (", ".join("true" if ch == "1" else "false" for ch in key), "; ".join(rows[key])))
+    out += ["  end.", "", "Definition default_upper : list sitem := [%s]." % "; ".join(shape), ""]
+    return "\n".join(out)
+
+
+def syn_rows(basic, appends):
+    """the syntactic result as a table: selection key -> lids"""
+    rows = {}
+    for sel in stack_eval.SELECTIONS:
+        rows[stack_eval.skey(sel)] = basic + [l for flag, ls in appends if sel[flag] for l in ls]
+    return rows
+
+
+def _lids(what, res):
+    if "exc" in res:
+        _fail("%s raised %s" % (what, res["exc"]))
+    bad = stack_eval.bad_entries(res)
+    if bad:
+        _fail("%s: %s" % (what, "; ".join(bad)))
+    out = []
+    for x in res["val"]:
+        if not isinstance(x, str) or x not in CLASS2LID:
+            _fail("%s: unknown layer class %r" % (what, x))
+        out.append(CLASS2LID[x])
+    return out
+
+
+def table_stack(table):
+    """evaluated: (rows: selection key -> lids, shape items).  TranslateError when not usable."""
+    for h, want_true in (("getProtocolLayers", True), ("getDefaultLayers", False)):
+        ps = table.sig[h]
+        if tuple(p[0] for p in ps) != FLAGS or not all(p[2] for p in ps) or \
+                (want_true and not all(p[1] == "true" for p in ps)):
+            _fail("%s: signature is not (groups=True, media=True, privacy=True, profiles=True)" % h)
+    lab = lambda h, sel: stack_eval.call_label([h, sel, "none"])
+    rows = {}
+    for sel in stack_eval.SELECTIONS:
+        rows[stack_eval.skey(sel)] = _lids(lab("getProtocolLayers", sel), table.value("getProtocolLayers", sel))
+    if "exc" in table.core or stack_eval.bad_entries(table.core):
+        _fail("getCoreLayers(): %s" % (table.core.get("exc") or stack_eval.bad_entries(table.core)))
+    core = table.core["val"]
+    shapes = {}
+    for sel in stack_eval.SELECTIONS:
+        what = lab("getDefaultLayers", sel)
+        res = table.value("getDefaultLayers", sel)
+        if "exc" in res:
+            _fail("%s raised %s" % (what, res["exc"]))
+        bad = stack_eval.bad_entries(res)
+        if bad:
+            _fail("%s: %s" % (what, "; ".join(bad)))
+        v = res["val"]
+        if v[:len(core)] != core:
+            _fail("%s does not start with the layers of getCoreLayers()" % what)
+        proto = table.value("getProtocolLayers", sel)["val"]
+        shape = []
+        for x in v[len(core):]:
+            if isinstance(x, str):
+                if x not in CLASS2LID:
+                    _fail("%s: unknown layer class %r" % (what, x))
+                shape.append("SOne %s" % CLASS2LID[x])
+            elif x[0] == "par" and x[1] == proto:
+                shape.append("SProtocolGroup")
+            elif x[0] == "par" and all(isinstance(y, str) and y in CLASS2LID for y in x[1]):
+                shape.append("SPar [%s]" % "; ".join(CLASS2LID[y] for y in x[1]))
+            else:
+                _fail("%s: entry %r cannot be expressed" % (what, x))
+        shapes[stack_eval.skey(sel)] = shape
+    if len(set(tuple(v) for v in shapes.values())) != 1:
+        _fail("getDefaultLayers: the layers above the core layers are not the same shape for every selection")
+    return rows, shapes["1111"]
+
+
+def factorise(rows):
+    """rows == basic ++ one block per flag (in some fixed order)?  -> (basic, appends) or None"""
+    import itertools
+    basic = rows["0000"]
+    blocks = {}
+    for f in FLAGS:
+        r = rows[stack_eval.skey(dict((g, g == f) for g in FLAGS))]
+        if r[:len(basic)] != basic:
+            return None
+        blocks[f] = r[len(basic):]
+    for order in itertools.permutations(FLAGS):
+        appends = [(f, blocks[f]) for f in order]
+        if syn_rows(basic, appends) == rows:
+            return basic, appends
+    return None
 
 
 def _layer_files(repo):
@@ -151,65 +265,184 @@ def _layer_files(repo):
     return files
 
 
-def translate_handlemaps(repo, lids):
+def _parse_handlemap(cls, node):
+    init = [f for f in node.body if isinstance(f, ast.FunctionDef) and f.name == "__init__"]
+    if len(init) != 1:
+        _fail("%s: no unique __init__" % cls)
+    hm = [s for s in ast.walk(init[0]) if isinstance(s, ast.Assign) and len(s.targets) == 1
+          and isinstance(s.targets[0], ast.Name) and s.targets[0].id == "handleMap"]
+    if len(hm) != 1 or not isinstance(hm[0].value, ast.Dict):
+        _fail("%s: handleMap is not one dict literal" % cls)
+    # the dict must be what is handed to YowProtocolLayer.__init__
+    sup = [c for c in ast.walk(init[0]) if isinstance(c, ast.Call) and isinstance(c.func, ast.Attribute)
+           and c.func.attr == "__init__" and any(isinstance(a, ast.Name) and a.id == "handleMap" for a in c.args)]
+    if len(sup) != 1:
+        _fail("%s: handleMap is not passed to the base class constructor" % cls)
+    ents = []
+    for k, v in zip(hm[0].value.keys, hm[0].value.values):
+        if not (isinstance(k, ast.Constant) and isinstance(k.value, str)):
+            _fail("%s: non-literal handleMap key" % cls)
+        if not (isinstance(v, ast.Tuple) and len(v.elts) == 2):
+            _fail("%s: handleMap[%s] is not a pair" % (cls, k.value))
+        slots = []
+        for e in v.elts:
+            if isinstance(e, ast.Constant) and e.value is None:
+                slots.append(False)
+            elif isinstance(e, ast.Attribute) and isinstance(e.value, ast.Name) and e.value.id == "self":
+                slots.append(True)
+            else:
+                _fail("%s: handleMap[%s] slot is neither self.<method> nor None" % (cls, k.value))
+        ents.append((k.value, slots[0], slots[1]))
+    if len(set(e[0] for e in ents)) != len(ents):
+        _fail("%s: duplicate handleMap key" % cls)
+    return ents
+
+
+def parse_handlemaps(repo, lids):
+    """syntactic: ({lid: [(tag, recv?, send?)]}, {class name: reason it was not recognised})"""
     files = _layer_files(repo)
-    rows = {}
+    rows, errors = {}, {}
     for cls, lid in CLASS2LID.items():
         if lid.startswith("LAx"):
             continue
         if cls not in files:
             if lid in lids:
-                _fail("class %s not found under yowsup/layers" % cls)
+                errors[cls] = "class %s not found under yowsup/layers" % cls
             continue
-        path, node = files[cls]
-        init = [f for f in node.body if isinstance(f, ast.FunctionDef) and f.name == "__init__"]
-        if len(init) != 1:
-            _fail("%s: no unique __init__" % cls)
-        hm = [s for s in ast.walk(init[0]) if isinstance(s, ast.Assign) and len(s.targets) == 1
-              and isinstance(s.targets[0], ast.Name) and s.targets[0].id == "handleMap"]
-        if len(hm) != 1 or not isinstance(hm[0].value, ast.Dict):
-            _fail("%s: handleMap is not one dict literal" % cls)
-        # the dict must be what is handed to YowProtocolLayer.__init__
-        sup = [c for c in ast.walk(init[0]) if isinstance(c, ast.Call) and isinstance(c.func, ast.Attribute)
-               and c.func.attr == "__init__" and any(isinstance(a, ast.Name) and a.id == "handleMap" for a in c.args)]
-        if len(sup) != 1:
-            _fail("%s: handleMap is not passed to the base class constructor" % cls)
-        ents = []
-        for k, v in zip(hm[0].value.keys, hm[0].value.values):
-            if not (isinstance(k, ast.Constant) and isinstance(k.value, str)):
-                _fail("%s: non-literal handleMap key" % cls)
-            if not (isinstance(v, ast.Tuple) and len(v.elts) == 2):
-                _fail("%s: handleMap[%s] is not a pair" % (cls, k.value))
-            slots = []
-            for e in v.elts:
-                if isinstance(e, ast.Constant) and e.value is None:
-                    slots.append("false")
-                elif isinstance(e, ast.Attribute) and isinstance(e.value, ast.Name) and e.value.id == "self":
-                    slots.append("true")
-                else:
-                    _fail("%s: handleMap[%s] slot is neither self.<method> nor None" % (cls, k.value))
-            ents.append("(%s, %s, %s)" % (_coq_str(k.value), slots[0], slots[1]))
-        if len(set(e.split(",")[0] for e in ents)) != len(ents):
-            _fail("%s: duplicate handleMap key" % cls)
-        rows[lid] = ents
+        try:
+            rows[lid] = _parse_handlemap(cls, files[cls][1])
+        except TranslateError as e:
+            errors[cls] = str(e)
+    return rows, errors
+
+
+def table_handlemaps(table):
+    """evaluated: ({lid: [(tag, recv?, send?)]}, {class name: why not usable})"""
+    rows, errors = {}, {}
+    for cls, d in (table.handlemaps or {}).items():
+        if cls not in CLASS2LID:
+            continue
+        if "rows" in d:
+            rows[CLASS2LID[cls]] = [tuple(r) for r in d["rows"]]
+        else:
+            errors[cls] = d.get("bad", "not evaluated")
+    return rows, errors
+
+
+def emit_handlemaps(rows):
     out = ["(* GENERATED by harness/translators/c06tables.py from yowsup/layers/*/layer*.py - do not edit *)",
            "From YV Require Import C06.C06Base.", "",
            "(* per layer: (tag, has a receive handler, has a send handler) *)",
            "Definition handle_map (l : lid) : list (string * bool * bool) :=", "  match l with"]
     for lid in sorted(rows):
-        out.append("  | %s => [%s]" % (lid, "; ".join(rows[lid])))
+        out.append("  | %s => [%s]" % (lid, "; ".join(
+            "(%s, %s, %s)" % (_coq_str(k), "true" if r else "false", "true" if sd else "false") for k, r, sd in rows[lid])))
     out += ["  | _ => []", "  end.", ""]
     return "\n".join(out)
 
 
-def regenerate(repo, gendir):
+LID2CLASS = dict((v, k) for k, v in CLASS2LID.items())
+
+
+def analyse(repo, scratch=None):
+    """-> dict: the two texts + which path produced them + disagreements + call-history findings.
+    Raises TranslateError when neither the syntactic nor the evaluated extraction is usable."""
+    table, ev_err = None, None
+    try:
+        table = stack_eval.evaluate(repo, scratch)
+    except stack_eval.EvalError as e:
+        ev_err = str(e)
+    rep = {"tie_problems": [], "history_findings": table.history_findings if table else [], "eval": None}
+    if table:
+        rep["eval"] = {"first_calls_each_in_its_own_process": table.n_calls, "calls_in_histories": table.n_history_calls,
+                       "history_dependent_results": len(table.history_findings),
+                       "layer_classes_instantiated": len(table.handlemaps or {}), "wall_s": table.wall_s}
+    # ---------------- layer lists
+    syn, syn_err = None, None
+    try:
+        syn = parse_stack(repo)
+    except (TranslateError, SyntaxError, OSError) as e:
+        syn_err = str(e)
+    ev, ev_stack_err = None, ev_err
+    if table:
+        try:
+            ev = table_stack(table)
+        except TranslateError as e:
+            ev_stack_err = "evaluated table not usable: %s" % e
+    if syn is not None:
+        basic, appends, shape = syn
+        layers_v = emit_layers(basic, appends, shape)
+        lids = basic + [l for _, ls in appends for l in ls]
+        if ev is None:
+            rep["layers_path"] = "syntactic only (EVALUATION FAILED: %s)" % ev_stack_err
+            rep["tie_problems"].append(("translator:c06tables.evaluation", {"detail": ev_stack_err}))
+        else:
+            rows, eshape = ev
+            srows = syn_rows(basic, appends)
+            dis = [{"helper": "getProtocolLayers", "selection": stack_eval.sel_of(k), "syntactic": srows[k],
+                    "evaluated": rows[k]} for k in sorted(rows) if rows[k] != srows[k]]
+            if eshape != shape:
+                dis.append({"helper": "getDefaultLayers", "selection": "layers above the core layers",
+                            "syntactic": shape, "evaluated": eshape})
+            rep["layers_path"] = "syntactic+evaluated (agree)" if not dis else \
+                "syntactic+evaluated (DISAGREE on %d points)" % len(dis)
+            rep["tie_problems"] += [("translator:c06tables.syntactic-vs-evaluated", d) for d in dis]
+    elif ev is not None:
+        rows, shape = ev
+        fac = factorise(rows)
+        layers_v = emit_layers(fac[0], fac[1], shape) if fac else emit_layers_rows(rows, shape)
+        lids = sorted(set(l for r in rows.values() for l in r))
+        rep["layers_path"] = "evaluated only (source shape not recognised: %s)" % syn_err
+    else:
+        _fail("layer lists: syntactic: %s; evaluated: %s" % (syn_err, ev_stack_err))
+    # ---------------- handleMaps
+    srows, serrs = parse_handlemaps(repo, lids)
+    erows, eerrs = table_handlemaps(table) if table else ({}, {})
+    final, used_eval = dict(srows), []
+    for cls, why in sorted(serrs.items()):
+        lid = CLASS2LID[cls]
+        if lid in erows:
+            final[lid] = erows[lid]
+            used_eval.append("%s (%s)" % (cls, why))
+        else:
+            _fail("handleMap: syntactic: %s; evaluated: %s" % (why, eerrs.get(cls) or ev_err or "class not returned by "
+                                                               "getProtocolLayers for any selection"))
+    if table is None or table.handlemaps is None:
+        why = ev_err or (table.handlemaps_error if table else None) or "no result"
+        rep["handlemaps_path"] = "syntactic only (EVALUATION FAILED: %s)" % why
+        rep["tie_problems"].append(("translator:c06tables.handlemap-evaluation", {"detail": why}))
+    else:
+        dis = []
+        for cls, why in sorted(eerrs.items()):
+            if CLASS2LID[cls] in srows:
+                dis.append({"layer": cls, "syntactic": srows[CLASS2LID[cls]], "evaluated": "not usable: " + why})
+        for lid in sorted(erows):
+            if lid in srows and dict((k, (r, sd)) for k, r, sd in srows[lid]) != dict((k, (r, sd)) for k, r, sd in erows[lid]):
+                dis.append({"layer": LID2CLASS[lid], "syntactic": srows[lid], "evaluated": erows[lid]})
+        for lid in lids:
+            if lid in srows and lid not in erows and not lid.startswith("LAx") and LID2CLASS[lid] not in eerrs:
+                dis.append({"layer": LID2CLASS[lid], "syntactic": srows[lid], "evaluated": "class not instantiated"})
+        rep["handlemaps_path"] = ("syntactic+evaluated (agree)" if not used_eval else
+                                  "evaluated for %s; syntactic+evaluated (agree) for the others" % ", ".join(used_eval)) \
+            if not dis else "syntactic+evaluated (DISAGREE on %d layers)" % len(dis)
+        rep["tie_problems"] += [("translator:c06tables.handlemap-syntactic-vs-evaluated", d) for d in dis]
+    rep["C06Layers.v"] = layers_v
+    rep["C06HandleMaps.v"] = emit_handlemaps(final)
+    return rep
+
+
+def regenerate(repo=None, gendir=None, scratch=None):
+    if repo is None or gendir is None:
+        from ..env import REPO, VERIF
+        repo = repo or REPO
+        gendir = gendir or os.path.join(VERIF, "coq", "Gen")
     os.makedirs(gendir, exist_ok=True)
-    layers_v, lids = translate_stack(repo)
-    hm_v = translate_handlemaps(repo, lids)
-    for name, txt in (("C06Layers.v", layers_v), ("C06HandleMaps.v", hm_v)):
+    rep = analyse(repo, scratch)
+    for name in ("C06Layers.v", "C06HandleMaps.v"):
+        txt = rep[name]
         p = os.path.join(gendir, name)
         old = open(p).read() if os.path.exists(p) else None
         if old != txt:
             with open(p, "w") as f:
                 f.write(txt)
-    return {"C06Layers.v": layers_v, "C06HandleMaps.v": hm_v}
+    return rep
